@@ -183,7 +183,8 @@ class Facts:
         d = extract(cfg)
         self.dir = d
         mir.set_repo_prefix(os.path.abspath(REPO))
-        self.lib = mir.Crate(os.path.join(d, 'arc_swap.local.json'))
+        known = json.load(open(os.path.join(VERIF, 'rules', 'tables', 'known_functions.json')))['names']
+        self.lib = mir.Crate(os.path.join(d, 'arc_swap.local.json'), known_names=set(known))
         self._roots = None
         self._mono = None
         self.meta = json.load(open(os.path.join(d, 'ok.json')))
